@@ -306,7 +306,7 @@ func (p *Profile) Make(s *Sim, kind string) *Action {
 			return a
 		}
 		// one backend operation fails in the next request; queue a request in which that matters
-		op := pick(r, "Save", "Save", "Load", "UseRememberToken", "AddRememberToken", "sms", "render", "hash", "Create", "SaveOAuth2", "DelRememberTokens", "LoadByRecoverSelector")
+		op := pick(r, "Save", "Save", "Load", "UseRememberToken", "AddRememberToken", "sms", "render", "hash", "Create", "SaveOAuth2", "DelRememberTokens", "LoadByRecoverSelector", "mailrender-txt", "mailrender")
 		a.Opt["op"] = op
 		b := a.B
 		follow := func(k string) *Action { f := p.Make(s, k); f.B = b; return f }
@@ -334,6 +334,12 @@ func (p *Profile) Make(s *Sim, kind string) *Action {
 				f := follow("oauth_cb")
 				f.Cls, f.Cls2 = "own", "validcode"
 				s.Pending = append(s.Pending, f)
+			}
+		case "mailrender-txt", "mailrender":
+			// a mail template fails (the text part only, or the first part): queue a request that mails a token
+			kinds := []string{"recover_start", "recover_start", "admin_startconfirm", "register", "ev_start"}
+			if k := kinds[r.Intn(len(kinds))]; s.Enabled(k) {
+				s.Pending = append(s.Pending, follow(k))
 			}
 		case "LoadByRecoverSelector", "hash", "DelRememberTokens":
 			if s.Enabled("recover_end") {
